@@ -36,7 +36,8 @@ func c08Path(target string, rel []string) string {
 // a root may be a file), up to two extra entries at solver-chosen places beneath present directories; strict or not;
 // From-Markdown (forest) or From-Root (first tree of the forest, built with NewRoot/Add).
 func VerifC08() {
-	n := verifN()
+	n := verifN() % 10
+	maxExtras := uint(verifN() / 10) // verifN() = 10*extras + rows
 	lines, rows := wellFormedLines(n, verifName)
 	nodes, roots := specForest(lines)
 	for i, r := range roots {
@@ -49,6 +50,7 @@ func VerifC08() {
 		verifAssume(len(roots) == 1)
 	}
 	vfsReset()
+	// which node paths exist (downward closed), and as what
 	present := make([]bool, len(nodes))
 	isFile := make([]bool, len(nodes))
 	for i := range nodes {
@@ -59,22 +61,20 @@ func VerifC08() {
 			}
 		}
 		present[i] = pres
-		if pres {
-			kind := 1
-			if len(nodes[i].children) == 0 && verifFlag("asFile") {
-				kind = 2
-				isFile[i] = true
-			}
-			vfsAdd(nodeRel(nodes, i), kind)
+		if pres && len(nodes[i].children) == 0 && verifFlag("asFile") {
+			isFile[i] = true
 		}
 	}
-	// extras: beneath a present directory node, with a name different from that node's children
+	// extras: beneath a present directory node, with a name different from that node's children; a directory or a
+	// regular file; listed by the directory walk before or after the node's own children (the real order is lexical)
 	type extraT struct {
-		root int
-		path string
+		root, at, kind int
+		first          bool
+		rel            []string
+		path           string
 	}
 	var extras []extraT
-	nx := int(verifChoose("extras", 0, 2))
+	nx := int(verifChoose("extras", 0, maxExtras))
 	for k := 0; k < nx; k++ {
 		at := int(verifChoose("extraAt", 0, uint(len(nodes)-1)))
 		if !present[at] || isFile[at] {
@@ -89,8 +89,35 @@ func VerifC08() {
 		for _, e := range extras {
 			verifAssume(e.path != p)
 		}
-		vfsAdd(rel, 1)
-		extras = append(extras, extraT{root: c08RootOf(nodes, at), path: p})
+		extras = append(extras, extraT{root: c08RootOf(nodes, at), at: at, kind: int(verifChoose("extraKind", 1, 2)), first: verifFlag("extraFirst"), rel: rel, path: p})
+	}
+	// the directory state, in walk order: a node, the extras that sort before its children, its subtree, the others
+	var addNode func(i int)
+	addNode = func(i int) {
+		if !present[i] {
+			return
+		}
+		kind := 1
+		if isFile[i] {
+			kind = 2
+		}
+		vfsAdd(nodeRel(nodes, i), kind)
+		for _, e := range extras {
+			if e.at == i && e.first {
+				vfsAdd(e.rel, e.kind)
+			}
+		}
+		for _, c := range nodes[i].children {
+			addNode(c)
+		}
+		for _, e := range extras {
+			if e.at == i && !e.first {
+				vfsAdd(e.rel, e.kind)
+			}
+		}
+	}
+	for _, r := range roots {
+		addNode(r)
 	}
 	strict := verifFlag("strict")
 	vfsSeal()
